@@ -30,14 +30,18 @@ class StepTimeout(RuntimeError):
     """env.step did not return within the watchdog time (a loop inside the environment that never terminates)"""
 
 
+_TIMEOUTS = [0]  # per process: after a few hanging steps every later step only gets a short watchdog (fail fast)
+
+
 def _on_alarm(signum, frame):
+    _TIMEOUTS[0] += 1
     raise StepTimeout("env.step did not return within the watchdog time")
 
 
-STEP_WATCHDOG_S = int(os.environ.get("VERIF_STEP_WATCHDOG", "180"))
+STEP_WATCHDOG_S = int(os.environ.get("VERIF_STEP_WATCHDOG", "60"))
 
 
-def step_batch(env, td, actions):
+def step_batch(env, td, actions, watchdog=None):
     td = td.clone()
     td.set("action", torch.as_tensor(actions, dtype=torch.long))
     _set_bs(env, td.batch_size[0])
@@ -46,7 +50,7 @@ def step_batch(env, td, actions):
     use_alarm = threading.current_thread() is threading.main_thread()
     if use_alarm:
         old = signal.signal(signal.SIGALRM, _on_alarm)
-        signal.alarm(STEP_WATCHDOG_S)
+        signal.alarm((watchdog or STEP_WATCHDOG_S) if _TIMEOUTS[0] < 2 else 5)
     try:
         td = env.step(td)["next"]
     finally:
@@ -141,14 +145,25 @@ def explore(env, td0, max_depth=64, max_states=400_000, on_level=None, keep_node
         except Exception:  # noqa: BLE001
             # a mask-admitted step raised: find the offending rows one by one, keep exploring the others
             good, parts = [], []
+            timeouts = 0
             for q in range(len(acts)):
+                if timeouts >= 3:
+                    # several single rows already hang: the rest of this level is not stepped (reported as capped)
+                    tree.capped = True
+                    break
                 try:
-                    parts.append(step_batch(env, nxt[q : q + 1], [acts[q]]))
+                    # single rows get a short watchdog: one row takes milliseconds unless the environment spins
+                    parts.append(step_batch(env, nxt[q : q + 1], [acts[q]], watchdog=max(5, STEP_WATCHDOG_S // 18)))
                     good.append(q)
                 except Exception as e:  # noqa: BLE001
+                    timeouts += isinstance(e, StepTimeout)
                     if len(tree.crashes) < 20:
                         tree.crashes.append((new_hists[q], e))
             if not good:
+                break
+            if timeouts:
+                # an environment that spins on some rows: this tree is not explored any deeper (reported as capped)
+                tree.capped = True
                 break
             states = torch.cat(parts, 0)
             acts = [acts[q] for q in good]
